@@ -687,6 +687,7 @@ fn c11(input: &str, output: &str) {
             }
         }
         let mut results = serde_json::Map::new();
+        let mut attachments = serde_json::Map::new();
         let mut modes: Vec<Option<String>> = vec![None];
         modes.extend(tags.iter().map(|t| Some(t.clone())));
         let alts = prog["alts"].as_u64().unwrap_or(1) as usize;
@@ -709,11 +710,22 @@ fn c11(input: &str, output: &str) {
                         res.push(format!("{}|{}", g.join(" "), p.join(";")));
                     }
                     results.insert(format!("{script}/{lang}|{}|{alt}", mode.clone().unwrap_or_else(|| "*".into())), json!(res));
+                    if alt == 1 {
+                        // mark attachment, queried at table level for the requested (base, mark, component) triples
+                        let mut att = vec![];
+                        for t in prog["pairs"].as_array().cloned().unwrap_or_default() {
+                            let (b, m) = (gid[t[0].as_str().unwrap()], gid[t[1].as_str().unwrap()]);
+                            let comp = t[2].as_u64().map(|c| c as usize);
+                            let got = sh.mark_attachments(&gp, b, m, comp);
+                            att.push(got.iter().map(|(_, k, ba, ma)| format!("{k}:{},{},{},{}", ba.0, ba.1, ma.0, ma.1)).collect::<Vec<_>>().join(";"));
+                        }
+                        attachments.insert(format!("{script}/{lang}|{}", mode.clone().unwrap_or_else(|| "*".into())), json!(att));
+                    }
                 }
             }
         }
         let n_lookups = json!([shaper.gsub.as_ref().map(|l| l.lookups.len()).unwrap_or(0), shaper.gpos.as_ref().map(|l| l.lookups.len()).unwrap_or(0)]);
-        writeln!(out, "{}", json!({"id": id, "ok": true, "font_systems": font_systems, "tags": tags, "results": results, "lookups": n_lookups, "unsupported": *shaper.unsupported.borrow()})).unwrap();
+        writeln!(out, "{}", json!({"id": id, "ok": true, "font_systems": font_systems, "tags": tags, "results": results, "attachments": attachments, "lookups": n_lookups, "unsupported": *shaper.unsupported.borrow()})).unwrap();
     }
     out.flush().unwrap();
 }
